@@ -64,6 +64,9 @@ CHECKS = {
     'C20': ('explicit-state BFS over assignment histories on real Transform2D/3D instances with listeners on every event subset; exhaustive constructor / listener-subset families',
             'E1: all assignment histories to depth 4 (fixpoint for the shared-listener layout) over 2 instances x 3 properties x 8 rotations / 3 vectors; E3: all listener subset pairs, all constructor argument combinations',
             'CPython semantics', '3/C20'),
+    'C16': ('bounded-exhaustive enumeration of real directory trees x rule sets x option combinations x directory listing orders against an independent tree->key-set function',
+            'E3: every directory tree of the family (<= 4 entries, depth <= 3, names with / without extension, directories with extension, empty directories) x 1-2 rules (rule dir nested / missing / plain file; extension filters; extra args) x nest_on_conflict x trim_extensions (constructor / per call) x 1-2 populations x every os.scandir order for small directories',
+            'CPython semantics; os.scandir wrapped to own the listing order; tmpfs scratch directories', '3/C16'),
 }
 
 NOT_YET = {p: 'check under construction (planned in DESIGN.md section 3); not claimed yet' for p in
